@@ -8,6 +8,8 @@ import (
 	"math/rand"
 	"sync"
 
+	"github.com/consensys/gnark/backend"
+	"github.com/consensys/gnark/frontend"
 	"github.com/consensys/gnark/test"
 
 	"verifmon/internal/cli"
@@ -51,6 +53,31 @@ func runC05(o *cli.Opts, run *evid.Run) {
 		return
 	}
 	run.Set("constraints", map[string]int{"poseidon1": s1.Audit.Constraints, "poseidon2": s2.Audit.Constraints, "multi": sm.Audit.Constraints})
+	// dishonest prover: discover every hint call the compiled gadgets make (none for a permutation built from
+	// additions and multiplications alone) and forge its outputs; outputs are read through a probe
+	if psys, err := rmon.Compile(rmon.BN254, &P2ProbeCircuit{}); err != nil {
+		run.Violate("C05/forge/compile", "probe harness does not compile: "+err.Error(), nil)
+	} else {
+		rm1 := new(big.Int).Sub(ref.R, big.NewInt(1))
+		ins := [][2]*big.Int{{big.NewInt(0), big.NewInt(0)}, {big.NewInt(1), big.NewInt(2)}, {rm1, new(big.Int).Sub(ref.R, big.NewInt(2))}, {new(big.Int).Rsh(ref.R, 1), big.NewInt(0)},
+			{new(big.Int).Lsh(big.NewInt(1), 200), new(big.Int).Lsh(big.NewInt(3), 128)}}
+		cli.ForEach(len(ins), 4, func(i int) {
+			a, b := ins[i][0], ins[i][1]
+			key := fmt.Sprintf("C05/forge/%d", i)
+			if !run.Wants(key) {
+				return
+			}
+			want := []*big.Int{ref.H2(a, b), ref.H1(b)}
+			confirm := func(outs []*big.Int, opt backend.ProverOption) bool {
+				if outs[0].Cmp(want[0]) != 0 && s2.SolveWith(&P2Circuit{A: a, B: b, Out: outs[0]}, opt).Accepted {
+					return true
+				}
+				return outs[1].Cmp(want[1]) != 0 && s1.SolveWith(&P1Circuit{In: b, Out: outs[1]}, opt).Accepted
+			}
+			forgeStage(run, key, fmt.Sprintf("Poseidon2(0x%s, 0x%s) and Poseidon1 of the second operand", a.Text(16), b.Text(16)), psys,
+				func(tag int64) frontend.Circuit { return &P2ProbeCircuit{A: a, B: b, Tag: tag} }, want, confirm, o.Pick(8, 40))
+		})
+	}
 	one := big.NewInt(1)
 	check2 := func(key, class string, a, b *big.Int, engine bool) {
 		if !run.Wants(key) {
@@ -366,6 +393,7 @@ func runC05(o *cli.Opts, run *evid.Run) {
 		wg.Wait()
 	}
 	run.Require("engine runs", run.GetInt("engine_runs"), 10)
+	run.Require("probe systems examined for prover-chosen values", run.GetInt("forge_probe_systems"), 5)
 	run.Require("positive Poseidon2 cases", run.ClassTally("random/p2/pos").Cases, 1000)
 }
 
